@@ -40,7 +40,9 @@ Definition keyword_replace (tbl : list string) (w : string) : string :=
 Definition rename_annotation (graphql_name rust_name : string) : option string :=
   if String.eqb graphql_name rust_name then None else Some graphql_name.
 
-Inductive position := PResponse | PAlias | PVariable | PInputField | POneOf | PEnumValue.
+(* PFragStruct / PFragVariant: the flattened member that carries a named-fragment spread, in a struct and in
+   the struct of a union / interface variant *)
+Inductive position := PResponse | PAlias | PVariable | PInputField | POneOf | PEnumValue | PFragStruct | PFragVariant.
 
 (* (identifier emitted, rename attribute) for a struct-field-like position *)
 Definition field_names (tbl : list string) (snake : string -> string) (name : string) : string * option string :=
